@@ -56,8 +56,10 @@ def gen(rng):
         st['jira_account_url'] = ''
     elif r < 0.18:
         st['jira_email'] = ''
-    if rng.random() < 0.12:
-        st['pr_author_options'] = {'alice': ['bypass_jira_check']}
+    if rng.random() < 0.2:
+        st['pr_author_options'] = R.gen_author_options(
+            rng, 'alice', ['bypass_jira_check', 'bypass_build_status'],
+            others=('bob', 'carol', 'dave'))
     cfg = {'settings': st, 'heads': heads, 'tags': tags,
            'cmd_line_options': ['bypass_jira_check']
            if rng.random() < 0.06 else [],
@@ -157,6 +159,7 @@ class Session:
         self.probes = {}
         self.trace = []
         self.pending_fail = None
+        self.admin_bypass = False
 
     def probe(self, n):
         self.probes[n] = self.probes.get(n, 0) + 1
@@ -184,6 +187,8 @@ class Session:
             repo = self.clients[op['by']].get_repository('s', owner='o')
             repo.gitrepo = R._Env.gitstub
             repo.get_pull_request(self.pr_id).add_comment(op['text'])
+            if op['by'] == 'root' and 'bypass_jira_check' in op['text']:
+                self.admin_bypass = True
 
     def evaluate(self):
         from bert_e.job import PullRequestJob
@@ -245,9 +250,28 @@ def run_history(cfg, ops, scratch):
         if res['outcome'].startswith(('cascade-', 'comments:')):
             sess.probe('not-reached:' + res['outcome'])
             continue
+        # who switched the bypass on: command line, the author's own entry
+        # of pr_author_options, or an admin's comment (comments by others
+        # never get here: handle_comments refuses them)
+        granted = 'bypass_jira_check' in cfg['cmd_line_options'] or \
+            'bypass_jira_check' in (cfg['settings'].get(
+                'pr_author_options', {}).get('alice') or []) or \
+            sess.admin_bypass
+        if bool(res['opts'].get('bypass_jira_check')) != bool(granted):
+            return Violation(
+                'C11', 'C11:bypass-%s' % (
+                    'in-force-without-grant' if not granted
+                    else 'granted-but-ignored'),
+                'bypass_jira_check is %s for the evaluation; command line '
+                '%s, pr_author_options %s, admin comment %s' % (
+                    res['opts'].get('bypass_jira_check'),
+                    cfg['cmd_line_options'],
+                    cfg['settings'].get('pr_author_options'),
+                    sess.admin_bypass), {}), sess
         want = reference(cfg, cfg['src'],
                          lambda k: sess.jira.issues.get(k),
-                         res['versions'], res['opts'], res['jira_fail'])
+                         res['versions'], {'bypass_jira_check': granted},
+                         res['jira_fail'])
         sess.probe('ref:' + want)
         got = res['outcome']
         if want == 'error':
